@@ -717,6 +717,80 @@ def gen_remote_case(rng, env, k, api):
     return case
 
 
+# several top-level sources with the SAME base name in one call (kinds of the sources in processing order)
+ORDERS = [('L', 'D'), ('L', 'F'), ('D', 'L'), ('L', 'D', 'D'), ('F', 'L', 'D'), ('L', 'L', 'D'), ('D', 'D', 'L'), ('F', 'D')]
+MULTI_APIS = ('get_list', 'mget_r', 'mget_star', 'copy_list', 'put_list')
+
+
+def gen_multi_case(rng, env, k, mode, order=None):
+    """get([d0/x, d1/x, ...]) / mget(b'.../r*/x') / mget(b'.../*/x') / copy([...]) / put([...]): the sources share
+    their base name, so all of them land on the same destination path"""
+    order = order or tuple(rng.choice('LLDDF') for _ in range(rng.randint(2, 4)))
+    name = rng.choice([b'x', b'y'])
+    ob = env.outside.encode()
+    case = {'spec': Spec(), 'glob': None, 'top_dirs': [SRC], 'preserve': rng.random() < 0.4,
+            'recurse': rng.random() < 0.93, 'follow': rng.random() < 0.3, 'handler': rng.random() < 0.5,
+            'dst_state': rng.choice(['empty', 'empty', 'populated', 'absent']), 'multi': ''.join(order)}
+    targets = [ob + b'/dir', ob + b'/dir', ob + b'/victim', b'../../outside/dir', b'..', b'z']
+    if mode == 'put_list':
+        src = os.path.join(env.base, 'lsrc%d' % k).encode()
+        os.mkdir(src)
+        paths = []
+        for i, t in enumerate(order):
+            d = os.path.join(src, b'r%d' % i)
+            os.mkdir(d)
+            p = os.path.join(d, name)
+            paths.append(p)
+            if t == 'L':
+                os.symlink(rng.choice([ob + b'/dir', ob + b'/victim']), p)
+            elif t == 'D':
+                build_local_tree(rng, p, env.outside, 1)
+                if not os.listdir(p):
+                    with open(os.path.join(p, b'evil'), 'wb') as f:
+                        f.write(b'data')
+            else:
+                with open(p, 'wb') as f:
+                    f.write(b'data')
+        case.update(api='put', srcpaths=paths, cleanup=src, tops=[(name, p, 'D') for p in paths],
+                    tops_lit=clist(paths, lambda p: '(%s, %s)' % (zl(name), local_node_coq(p, case['follow']))))
+        return case
+    spec = case['spec']
+    top = SRC + b'/t%d' % k
+    case['top_dirs'].append(top)
+    rdirs = [b'r%d' % i for i in range(len(order))]
+    spec.listing[top] = ([(r, 'D') for r in rdirs], True)
+
+    def leaf(p, t):
+        spec.ltype[p], spec.stat_t[p], spec.target[p] = t, t, rng.choice(targets)
+        spec.open_ok[p] = spec.rd_ok[p] = True
+    paths = []
+    for r, t in zip(rdirs, order):
+        rp = posixpath.join(top, r)
+        leaf(rp, 'D')
+        spec.listing[rp] = ([(name, t), (b'z', 'F')], True)
+        p = posixpath.join(rp, name)
+        leaf(p, t)
+        leaf(posixpath.join(rp, b'z'), 'F')
+        paths.append(p)
+        if t == 'D':
+            gen_dir(rng, spec, p, 2, NAMES_VALID, env.outside, False)
+            entries, ok = spec.listing[p]
+            if not entries:
+                leaf(posixpath.join(p, b'evil'), 'F')
+                spec.listing[p] = ([(b'evil', 'F')], ok)
+    case['tops'] = [(name, p, t) for p, t in zip(paths, order)]
+    if mode == 'get_list':
+        case.update(api='get', srcpaths=paths)
+    elif mode == 'copy_list':
+        for key, v in list(spec.target.items()):
+            if v == b'':
+                spec.target[key] = b'z'
+        case.update(api='copy', srcpaths=paths)
+    else:
+        case.update(api='mget', srcpaths=top + (b'/r*/' if mode == 'mget_r' else b'/*/') + name)
+    return case
+
+
 FIXED = [
     # (listing of the top directory, targets, stat answers, options)
     dict(top=[(b'x', 'L'), (b'x', 'D')], target={b'x': 'OUT/dir'}, sub={b'x': [(b'evil', 'F')]}),
@@ -902,6 +976,11 @@ def stage_copy(ctx):
     cases += [gen_case(rng, env, len(FIXED) + k) for k in range(n)]
     n_remote = 400 if ctx.tier == 'thorough' else 30
     cases += [gen_remote_case(rng, env, len(cases) + k, 'copy' if k % 2 == 0 else 'put') for k in range(n_remote)]
+    # several sources sharing a base name: every order with every API, then a random stream
+    multi = [(MULTI_APIS[(i + j) % len(MULTI_APIS)], o) for i, o in enumerate(ORDERS) for j in range(2)]
+    multi += [(MULTI_APIS[j], ('L', 'D')) for j in range(len(MULTI_APIS))]
+    multi += [(rng.choice(MULTI_APIS), None) for _ in range(300 if ctx.tier == 'thorough' else 12)]
+    cases += [gen_multi_case(rng, env, len(cases) + i, m, o) for i, (m, o) in enumerate(multi)]
     env.tap.install()
     try:
         results = sshutil.run(session(ctx, env, cases, batch), timeout=1500)
@@ -917,6 +996,11 @@ def stage_copy(ctx):
             continue
         feats = classify(case, None)
         evs = out['events']
+        if case.get('multi'):
+            feats.add('multi_source')
+            if 'L' in case['multi'] and case['multi'].index('L') < len(case['multi']) - 1:
+                feats.add('multi_link_then_other')
+            ctx.count('copy.multi_' + case['api'])
         if any(e[0] == 'setstat' for e in evs):
             feats.add('preserve')
         if any(e[0] == 'err' and e[1] == 'EBad' for e in evs) or out['raised'] == 'EBad':
@@ -932,7 +1016,7 @@ def stage_copy(ctx):
             ctx.count('copy.' + f)
         ctx.count('copy.api_' + case['api'])
         ctx.count('copy.' + ('raised' if out['raised'] else 'returned'))
-        shape = tuple((bn, t) for bn, _p, t in case['tops'])
+        shape = tuple((bn, t) for bn, _p, t in case['tops']) + (case.get('multi'), repr(case['srcpaths'])[-24:])
         ctx.note_case(('copy', case['api'], shape, repr(sorted(case['spec'].listing.items())), case['preserve'],
                        case['follow'], case['handler'], case['dst_state']),
                       nontrivial=bool(feats & {'duplicate', 'link', 'slash_name', 'dot_name'}))
@@ -961,7 +1045,7 @@ def stage_copy(ctx):
                   f'{len(bad)} of {len(coq_cases)} cases differ; first (case {i}, {case["api"]}, follow={case["follow"]}, '
                   f'preserve={case["preserve"]}, handler={case["handler"]}, dst {case["dst_state"]}): recorded '
                   f'{out["events"]!r} raised={out["raised"]}; Coq literal: {coq_cases[bad[0]][:1500]}')
-    for f in ('duplicate', 'link', 'link_then_other', 'preserve', 'rejected', 'link_created', 'lsetstat', 'dot_name',
+    for f in ('multi_source', 'multi_link_then_other', 'duplicate', 'link', 'link_then_other', 'preserve', 'rejected', 'link_created', 'lsetstat', 'dot_name',
               'slash_name', 'empty_name'):
         if not feats_all.get(f):
             ctx.broke('vacuity:copy_' + f, f'no generated copy exercised "{f}"')
